@@ -31,7 +31,7 @@ def classes(a, spec, res):
 
 
 def subchecks(tier):
-    prof = common.full_profile(allowed=common.FULL + ["exact", "deadlock"], horizon=(0.25, 14.0))
+    prof = common.full_profile("C14", allowed=common.FULL + ["exact", "deadlock"], horizon=(0.25, 14.0))
     prof.weights.update({"exact": 0.12, "deadlock": 0.1, "tracker": 0.3})
     base = system_subcheck("lattice", prof, lambda spec: [Horizon()], nontrivial, classes=classes,
                             n={"quick": 9600, "thorough": 60000}, abort_is_violation="C14",
